@@ -752,5 +752,66 @@ def check_totality(pid, tier, seed, scratch, replay):
     return rep.finish()
 
 
+# ------------------------------------------------------------------------------------------------
+# C20: independent calls are safe concurrently
+# ------------------------------------------------------------------------------------------------
+
+@register("C20")
+def check_conc(pid, tier, seed, scratch, replay):
+    import concurrent.futures as cf, glob, subprocess
+    thorough = tier == "thorough"
+    rep = Report(pid, tier, seed)
+    rep.rule = ("Conc.tla: all interleavings of 3 calls x 3 steps are model-checked (tables never written, every call returns its alone "
+                "result; the LEAKY variant is refuted). TLC generates every interleaving of 3 calls x 2 gated steps (90 schedules; thorough "
+                "also 2 calls x 4 steps) which the harness forces on the real code through the verif hook gate (a call blocks at every "
+                "instrumented reader-loop site until the schedule lets it proceed), for seeded combinations of operations out of a "
+                "catalogue of all readers on the repository samples, the 5 writers and a chain of all transformations, each on private "
+                "data. Free-running scenarios: 2..32 goroutines, randomised start, GOMAXPROCS 2/4/16, built with -race. Every call's "
+                "result digest is compared by TLC with its alone-run digest, the package-table fingerprint (hook VerifTablesFingerprint) "
+                "must stay constant, and the race detector's log must be empty. Non-trivial = distinct (operation, schedule/scenario).")
+    rep.assumptions = ["absence of data races is the Go race detector's observation on the executed schedules, not a proof",
+                       "gate-forced interleavings cover the first steps of each call (then the calls run freely to completion)"]
+    drive = vlib.build_harness(scratch)
+    drive_race = vlib.build_harness(scratch, race=True)
+
+    def gen(nc, ns):
+        out = scratch.path("sched.%d.%d.ndjson" % (nc, ns))
+        require_ok(tlc(scratch, "GenConc", "GenConc.cfg", env=dict(GEN_NC=nc, GEN_NS=ns, GEN_OUT=out), heap="2g"), "GenConc")
+        return out
+
+    with cf.ThreadPoolExecutor(max_workers=vlib.NCPU) as ex:
+        mc = ex.submit(lambda: require_ok(tlc(scratch, "Conc", "MC_Conc_cur.cfg", workers=2), "MC_Conc_cur"))
+        mcl = ex.submit(lambda: tlc(scratch, "Conc", "MC_Conc_leaky.cfg", workers=2))
+        scheds = [gen(3, 2)] + ([gen(2, 4)] if thorough else [])
+        traces = []
+        for i, sc in enumerate(scheds):
+            tr = scratch.path("trace.conc.gated.%d.ndjson" % i)
+            vlib.run_drive(drive, ["conc", "-cases", sc, "-out", tr, "-seed", str(seed + i), "-combos", "12" if thorough else "4", "-free", "0"], timeout=3000)
+            traces.append(tr)
+        # free-running under the race detector
+        racelog = scratch.path("racelog")
+        tr = scratch.path("trace.conc.free.ndjson")
+        vlib.run_drive(drive_race, ["conc", "-out", tr, "-seed", str(seed), "-free", "150" if thorough else "30"], timeout=3000,
+                       env={"GORACE": "log_path=%s exitcode=0 halt_on_error=0" % racelog})
+        reports = []
+        for f in glob.glob(racelog + "*"):
+            txt = open(f, errors="replace").read()
+            if "DATA RACE" in txt:
+                reports.append(txt[:3000])
+        with open(tr, "a") as f:
+            f.write(json.dumps({"n": 999999999, "first": False, "mode": "race", "call": "race-detector", "digest": "", "fpb": "", "fpa": "",
+                                "sched": [], "procs": 0, "gor": 0, "steps": 0, "race": bool(reports), "detail": reports[:1]}) + "\n")
+        traces.append(tr)
+        vals = validate(ex, scratch, traces, "TraceConc", "TraceConc.cfg", per_jvm=10**9)
+        rep.add_mc("MC_Conc_cur.cfg", mc.result())
+        leaky = mcl.result()
+        rep.extra["leaky_variant_refuted_by_tlc"] = ("violated" in leaky.out)
+        if "violated" not in leaky.out:
+            raise Infra("Conc.tla: the LEAKY variant was not refuted - the model does not discriminate")
+    collect(rep, vals, pid, nontrivial=lambda ev: ev["mode"] != "alone", key=lambda ev: [ev["mode"], ev["call"], ev["sched"], ev["procs"], ev["gor"], ev["n"]])
+    rep.extra["race_reports"] = len(reports)
+    return rep.finish()
+
+
 def selftest(pid, tier, seed, scratch, replay):
     raise Infra("selftest not implemented yet")
